@@ -372,9 +372,12 @@ ExpectedRL(t) ==
     names     |-> <<"issuer">>,
     nameBags  |-> <<>>,
     open      |-> IF indom THEN <<>>
-                  ELSE <<"issuer", "thisUpdate", "nextUpdate", "number", "entries", "akid", "extOids", "rawExts", "sigAlg">>,
+                  ELSE <<"issuer", "issuerIsSignerSubject", "thisUpdate", "nextUpdate", "number", "entries", "akid", "extOids", "rawExts", "sigAlg">>,
     allowed   |->
-     [ issuer     |-> One(ExpectedName(t.issuer.subject)),
+     [ \* the list names its SIGNER: the subject of the signing certificate, whoever issued that
+       \* certificate (t.issuer.by: self-signed root, intermediate, cross-signed CA)
+       issuer     |-> One(ExpectedName(t.issuer.subject)),
+       issuerIsSignerSubject |-> One(TRUE),      \* byte for byte ("Correctly use the issuer's subject sequence")
        thisUpdate |-> One(t.thisUpdate.sec),
        nextUpdate |-> One(t.nextUpdate.sec),
        number     |-> One(t.number),
@@ -401,7 +404,9 @@ ExpectedCRL(t) ==
     nameBags  |-> <<>>,
     open      |-> <<>>,
     allowed   |->
-     [ issuer     |-> One(ExpectedName(t.issuer.subject)),
+     [ \* "a CRL, signed by this Certificate": the CRL issuer is this certificate's SUBJECT, not the
+       \* name of whoever issued it
+       issuer     |-> One(ExpectedName(t.issuer.subject)),
        thisUpdate |-> One(t.now.sec),
        nextUpdate |-> One(t.expiry.sec),
        entries    |-> One([i \in DOMAIN t.entries |-> ExpCRLEntry(t.entries[i])]),
